@@ -283,7 +283,7 @@ def gen(rng, count, selector_only=False):
             if rng.random() < 0.4:
                 # caps for some candidates only (possibly none: max_seats left out) - the others are unbounded
                 caps = [kv for kv in caps if rng.random() < 0.4]
-                n = rng.randint(1, max(len(cs), 2))
+                n = rng.randint(1, len(cs))
         yield dict(unit='stv', cfg=cfg, votes=votes, n=n, prev=[], caps=caps)
 
 
@@ -390,7 +390,7 @@ def gen_boundary(rng, count, selector_only=False):
             n = rng.randint(1, sum(v for _, v in caps))
             if rng.random() < 0.4:
                 caps = [kv for kv in caps if rng.random() < 0.4]
-                n = rng.randint(1, max(len(cs), 2))
+                n = rng.randint(1, len(cs))
         made += 1
         yield dict(unit='stv', cfg=cfg, votes=votes, n=n, prev=[], caps=caps)
 
